@@ -20,6 +20,7 @@ import (
 
 const rule = "cases = (trie-grown route set, request derived from a registered pattern by hostile instantiation and perturbation); " +
 	"a case is distinct by (route set, request) and non-trivial when the reference matcher needed at least one wildcard capture or one failed branch to decide it; " +
+	"a third of the cases go through delete churn first (temporary routes grown from the registered ones - path extensions, hostname super/sub-domains, other methods - registered and deleted again in random order); " +
 	"plus the exhaustive small space (all sets of <=3 or <=4 patterns of a fixed pool x all paths of <=3 segments over 4 values)"
 
 type caseFile struct {
@@ -53,10 +54,10 @@ func main() {
 			run.Count("corpus_cases", 1)
 		}
 	}
-	sets := run.Pick(4000, 150000)
+	sets := run.Pick(4000, 400000)
 	probes := run.Pick(24, 32)
 	if run.Mode() == "race" {
-		sets = run.Pick(600, 12000)
+		sets = run.Pick(600, 30000)
 	}
 	const per = 50
 	run.Parallel(sets/per, func(batch int) {
